@@ -182,7 +182,14 @@ class Walk:
             return
         if len(pl["p"]) == 1 and isinstance(pl["p"][0], dict) and "f" in pl["p"][0] and base[0] == "adt":
             f = str(pl["p"][0]["f"])
-            env[pl["l"]] = ("adt", base[1], base[2], base[3], tuple((k, (v if k == f else x)) for k, x in base[4]))
+            fields = [(k, (v if k == f else x)) for k, x in base[4]]
+            if f not in [k for k, _ in fields]:
+                fields.append((f, v))
+            env[pl["l"]] = ("adt", base[1], base[2], base[3], tuple(fields))
+            return
+        if len(pl["p"]) == 1 and isinstance(pl["p"][0], dict) and "f" in pl["p"][0] and base == TOP and pl["l"] < 0:
+            # a record kept for storage outside the body (`*self`): only the fields written so far are known
+            env[pl["l"]] = ("adt", "?", "?", None, ((str(pl["p"][0]["f"]), v),))
             return
         env.pop(pl["l"], None)
 
@@ -297,6 +304,13 @@ def std_hooks():
                 return adt("std::ops::ControlFlow", "Continue", 0, [("0", w.field(v, "0"))])
             if v[0] == "adt" and v[2] in ("None", "Err"):
                 return adt("std::ops::ControlFlow", "Break", 1, [("0", v)])
+            return None
+        if re.search(r"FromResidual<.*>>?::from_residual$", nm) or re.search(r"FromResidual::from_residual$", d):
+            dt = t.get("dest_ty") or ""
+            if dt.startswith("std::option::Option"):
+                return adt("std::option::Option", "None", 0, [])
+            if dt.startswith("std::result::Result"):
+                return adt("std::result::Result", "Err", 1, [("0", TOP)])
             return None
         if re.search(r"Option::<T>::(unwrap|expect)$|Result::<T, E>::(unwrap|expect)$", nm):
             v = w.deref_val(env, argv[0]) if argv else TOP
